@@ -108,7 +108,7 @@ class QuickShift(BaseEstimator):
         self.gabriel_shell = gabriel_shell
         self.scale = scale
         if self.dist_cutoff_sq is not None:
-            self.dist_cutoff_sq *= self.scale**2
+            self.dist_cutoff_sq = self.dist_cutoff_sq * self.scale**2
         self.metric_params = (
             metric_params if metric_params is not None else {"cell_length": None}
         )
